@@ -29,9 +29,84 @@ thread_local! {
     static ALLOC_BIGGEST: Cell<usize> = const { Cell::new(0) };
 }
 
+/// A single request of this size or more, made while a case is being measured, is never served from real memory:
+/// it gets address space only (mmap MAP_NORESERVE), so that the code under test carries on, the request is counted
+/// like any other and the case fails its memory oracle through the normal path (shrinking, replay file) instead of
+/// the process being aborted by the allocation-error handler. Requests too large even for that end the run with a
+/// VIOLATION for the case in flight (see `absurd_fatal`).
+pub const ABSURD_ALLOC: usize = 1 << 33;
+static BIG_BLOCKS: Mutex<[(usize, usize); 32]> = Mutex::new([(0, 0); 32]);
+
+thread_local! {
+    /// (property id, sub-check, case as JSON) of the case this thread is evaluating; kept only when a check asks for it
+    static INFLIGHT: RefCell<Option<(String, String, String)>> = const { RefCell::new(None) };
+}
+pub static TRACK_INFLIGHT: AtomicBool = AtomicBool::new(false);
+
+unsafe fn big_alloc(size: usize) -> *mut u8 {
+    let p = libc::mmap(std::ptr::null_mut(), size, libc::PROT_READ | libc::PROT_WRITE, libc::MAP_PRIVATE | libc::MAP_ANONYMOUS | libc::MAP_NORESERVE, -1, 0);
+    if p == libc::MAP_FAILED {
+        absurd_fatal(size);
+    }
+    if let Ok(mut g) = BIG_BLOCKS.lock() {
+        if let Some(slot) = g.iter_mut().find(|s| s.0 == 0) {
+            *slot = (p as usize, size);
+        }
+    }
+    p as *mut u8
+}
+unsafe fn big_free(p: *mut u8) -> bool {
+    let mut size = 0;
+    if let Ok(mut g) = BIG_BLOCKS.lock() {
+        if let Some(slot) = g.iter_mut().find(|s| s.0 == p as usize) {
+            size = slot.1;
+            *slot = (0, 0);
+        }
+    }
+    if size > 0 {
+        libc::munmap(p as *mut libc::c_void, size);
+        true
+    } else {
+        false
+    }
+}
+/// The code under test asked for more memory than even address space can provide: the process would be aborted.
+/// Decide it here: write the case in flight as a replay file, print the VIOLATION line, exit 1.
+fn absurd_fatal(size: usize) -> ! {
+    let _ = ALLOC_ON.try_with(|c| c.set(false));
+    let info = INFLIGHT.try_with(|c| c.borrow().clone()).ok().flatten();
+    match info {
+        Some((id, sub, case)) => {
+            let sig = format!("{id}/{}/allocation-request-would-abort-the-process", sub.trim_start_matches("replay/"));
+            let dir = format!("{VERIF_DIR}/replays/{id}/found");
+            let _ = std::fs::create_dir_all(&dir);
+            let body = format!("{{\n \"property\": \"{id}\",\n \"sub\": \"{}\",\n \"signature\": \"{sig}\",\n \"message\": \"a single allocation of {size} bytes was requested\",\n \"case\": {case}\n}}\n", sub.trim_start_matches("replay/"));
+            let h = hex::encode(&blake3::hash(body.as_bytes()).as_bytes()[..6]);
+            let path = format!("{dir}/{}-{h}.json", sub.replace('/', "_"));
+            let _ = std::fs::write(&path, body);
+            println!("VIOLATION property={id} replay={path}");
+            println!("  signature: {sig}");
+            println!("  detail: the code under test requested a single allocation of {size} bytes, which would abort the process; run ended here (no shrinking, evidence file not rewritten)");
+            std::process::exit(1);
+        }
+        None => {
+            println!("INCONCLUSIVE: a single allocation of {size} bytes was requested outside a tracked case");
+            std::process::exit(2);
+        }
+    }
+}
+/// Remember the case this thread is about to evaluate (only when a check switched TRACK_INFLIGHT on).
+pub fn set_inflight<C: Serialize>(id: &str, sub: &str, case: &C) {
+    if TRACK_INFLIGHT.load(Ordering::Relaxed) {
+        let j = serde_json::to_string(case).unwrap_or_else(|_| "null".into());
+        let _ = INFLIGHT.try_with(|c| *c.borrow_mut() = Some((id.to_string(), sub.to_string(), j)));
+    }
+}
+
 unsafe impl std::alloc::GlobalAlloc for CountingAlloc {
     unsafe fn alloc(&self, l: std::alloc::Layout) -> *mut u8 {
-        let p = std::alloc::System.alloc(l);
+        let big = l.size() >= ABSURD_ALLOC && ALLOC_ON.try_with(|on| on.get()).unwrap_or(false);
+        let p = if big { big_alloc(l.size()) } else { std::alloc::System.alloc(l) };
         let _ = ALLOC_ON.try_with(|on| {
             if on.get() {
                 let _ = ALLOC_CUR.try_with(|c| {
@@ -53,7 +128,9 @@ unsafe impl std::alloc::GlobalAlloc for CountingAlloc {
         p
     }
     unsafe fn dealloc(&self, p: *mut u8, l: std::alloc::Layout) {
-        std::alloc::System.dealloc(p, l);
+        if !(l.size() >= ABSURD_ALLOC && big_free(p)) {
+            std::alloc::System.dealloc(p, l);
+        }
         let _ = ALLOC_ON.try_with(|on| {
             if on.get() {
                 let _ = ALLOC_CUR.try_with(|c| c.set(c.get() - l.size() as isize));
@@ -61,6 +138,16 @@ unsafe impl std::alloc::GlobalAlloc for CountingAlloc {
         });
     }
     unsafe fn realloc(&self, p: *mut u8, l: std::alloc::Layout, new: usize) -> *mut u8 {
+        if l.size() >= ABSURD_ALLOC || new >= ABSURD_ALLOC {
+            // rare path: move by hand through alloc/dealloc above (which count and route by size)
+            let nl = std::alloc::Layout::from_size_align_unchecked(new, l.align());
+            let q = self.alloc(nl);
+            if !q.is_null() {
+                std::ptr::copy_nonoverlapping(p, q, l.size().min(new));
+                self.dealloc(p, l);
+            }
+            return q;
+        }
         let q = std::alloc::System.realloc(p, l, new);
         let _ = ALLOC_ON.try_with(|on| {
             if on.get() {
@@ -704,8 +791,10 @@ pub fn is_harness_panic(p: &str) -> bool {
 
 fn run_guarded<C, F>(sub: &str, id: &str, case: &C, f: &F) -> Verdict
 where
+    C: Serialize,
     F: Fn(&C) -> Verdict,
 {
+    set_inflight(id, sub, case);
     match no_panic(|| f(case)) {
         Ok(mut v) => {
             // panics recorded from background tasks of the case
